@@ -280,7 +280,7 @@ pub struct PredictStats {
 
 /// Clause 7: `predict` = plurality among the training points within eps of the row (judged against
 /// the labelling of the very model that predicts); noise when there are none or noise dominates;
-/// any of the tied answers is accepted.
+/// any of the tied clusters is accepted (noise that only ties with a cluster does not dominate).
 #[allow(clippy::too_many_arguments)]
 pub fn check_predict<T: RealNumber>(
     rep: &mut Reporter,
@@ -324,6 +324,8 @@ pub fn check_predict<T: RealNumber>(
         }
         let top = *cnt.iter().max().unwrap();
         let winners: Vec<i64> = (0..=c).filter(|&l| cnt[l] == top).map(|l| if l == c { -1 } else { l as i64 }).collect();
+        // unclustered points that merely tie with a cluster do not dominate: noise is then not an answer
+        let winners: Vec<i64> = if winners.len() > 1 { winners.into_iter().filter(|w| *w >= 0).collect() } else { winners };
         if winners.len() > 1 {
             st.ties += 1;
         } else if winners[0] < 0 {
